@@ -41,7 +41,10 @@ def load():
 
 def _sx_isinstance(obj, cls):
     """`isinstance` for mabwiser.mab: a symbolic number is accepted where an int or float is documented"""
-    from .core import SV
+    from .core import SV, FV
+    if type(obj) is FV:
+        cl = cls if isinstance(cls, tuple) else (cls,)
+        return float in cl
     if type(obj) is SV:
         cl = cls if isinstance(cls, tuple) else (cls,)
         if float in cl:
@@ -132,6 +135,7 @@ def install_symbolic(cpu_count=None, nondet_set=None):
         if cpu_count is not None and 'mp' in d:
             d['mp'] = _CpuCount(cpu_count)
     MODS['mab'].__dict__['isinstance'] = _sx_isinstance
+    MODS['simulator'].__dict__['isinstance'] = _sx_isinstance
     if nondet_set is not None:
         install_set(nondet_set)
     _STATE['mode'] = 'sym'
